@@ -52,7 +52,6 @@ Definition chunk_ranges (n : Z) (chunk : option Z) : list (Z * Z) :=
   end.
 
 (* rows produced by iterating the generator over `rows` *)
-Definition slice {A} (a b : Z) (l : list A) : list A := firstnz (b - a) (skipnz a l).
 Definition chunked {A} (rows : list A) (chunk : option Z) : list A :=
   concat (map (fun '(a, b) => slice a b rows) (chunk_ranges (zlen rows) chunk)).
 
